@@ -1232,6 +1232,34 @@ class View(object):
   def res(self, expr, at=None):
     return self.resolve(expr, at=at)[0]
 
+  def alternatives(self, expr, at=None, facts=None, depth=6):
+    """Every value `expr` may have where it is evaluated, as [(value expr, node id at which that
+    value is computed, facts known on the way)]: locals that name the value are followed, a
+    local bound on several paths (`if c: x = A else: x = B`) contributes each binding with the
+    facts of its own path, conditional expressions are split. A binding that is not a plain
+    assignment ends the search with the name itself."""
+    nid = at if at is not None else self.point_of(expr)
+    facts = set(facts if facts is not None else (self.cfg_facts(nid) if nid is not None else ()))
+    out = []
+
+    def go(e, nid, facts, depth):
+      e, nid = self.resolve(e, at=nid)
+      if isinstance(e, ast.IfExp) and depth > 0:
+        go(e.body, nid, facts | self.test_facts(e.test, True, at=nid), depth - 1)
+        go(e.orelse, nid, facts | self.test_facts(e.test, False, at=nid), depth - 1)
+        return
+      if isinstance(e, ast.Name) and nid is not None and depth > 0:
+        defs = self.reaching(e.id, nid)
+        vals = [(d, self._plain_value(e.id, d) if d != self.ENTRY else None) for d in defs]
+        if len(defs) > 1 and all(v is not None for (_, v) in vals):
+          for (d, v) in sorted(vals, key=lambda x: x[0]):
+            go(v, d, facts | self.cfg_facts(d), depth - 1)
+          return
+      out.append((e, nid, facts))
+
+    go(expr, nid, facts, depth)
+    return out
+
   def alias_root(self, expr, at=None):
     """`expr` with locals that merely rename another name or an items()/values()/keys() view
     followed (`pairs = d.items()`, `m = table_renames`), other locals kept by name."""
@@ -1597,7 +1625,24 @@ def in_consts(atom_text):
   return None
 
 
-def flag_path(cfg, start, targets, stops, after=True):
+def flags_known_at(view, nid):
+  """{local: bool} for locals every binding of which that reaches node nid is a plain assignment
+  of the same boolean constant."""
+  out = {}
+  for name, defs in view._reaching().get(nid, {}).items():
+    vals = set()
+    for d in defs:
+      v = view._plain_value(name, d) if d != view.ENTRY else None
+      if isinstance(v, ast.Constant) and isinstance(v.value, bool):
+        vals.add(v.value)
+      else:
+        vals.add(None)
+    if len(vals) == 1 and None not in vals:
+      out[name] = next(iter(vals))
+  return out
+
+
+def flag_path(cfg, start, targets, stops, after=True, known=None):
   """A path from `start` (from just after it when after=True) to one of `stops` that avoids
   `targets`, where an `if` testing a boolean flag -- a local that was assigned the constant True
   or False on the way and not reassigned since -- only takes the branch that value selects. None
@@ -1645,15 +1690,13 @@ def flag_path(cfg, start, targets, stops, after=True):
   def freeze(k):
     return tuple(sorted(k.items()))
 
-  init = (start, freeze({}))
+  known0 = dict(known or {})
+  init = (start, freeze(known0))
   prev = {init: None}
   dq = deque()
-  if after:
-    dq.append((init, {}))
-  else:
-    if start in stops:
-      return [start]
-    dq.append((init, {}))
+  if not after and start in stops:
+    return [start]
+  dq.append((init, known0))
   while dq:
     cur, known = dq.popleft()
     nid = cur[0]
